@@ -41,7 +41,7 @@ def run(res):
                        "every shown key frame of every stream is also used as a cut point")
     res.assumptions += ["cut-and-decode uses libaom 3.6.0 as the independent decoder", "scene-change detection is rejected by the library and not exercised"]
     cs = cases(res)
-    rs = corpus.run_cases(cs, want_dec=["--aom"], timeout=90)
+    rs = corpus.run_cases(cs, want_dec=["--aom"], timeout=45)
     b = corpus.Bundle()
     cuts = 0
     cutjobs = []
@@ -49,7 +49,10 @@ def run(res):
         res.case(r["desc"])
         n = r["case"]["n"]
         if r["rc"] != 0:
-            res.violation("encode did not complete: " + r["desc"], r["log"][-1000:], key={"kind": "incomplete"})
+            st = r["case"]["sets"]
+            res.violation("encode did not complete: " + r["desc"], r["log"][-1000:],
+                          key={"kind": "incomplete", "hierarchical_levels": st.get("hierarchical_levels", 4),
+                               "intra_refresh_type": st.get("intra_refresh_type", 1), "logical_processors": st.get("logical_processors")})
             continue
         be, errs, pk = stream.bitstream_events(r, n_expected=n, expect={"hdrdig": ""})
         b.add("Bitstream", be, r["desc"])
